@@ -42,7 +42,7 @@ def gen_graph(rng, n, p_hard=0.35, p_soft=0.2):
 
 def gen_outcomes(rng, n, p_ok=0.65):
     return [('done' if rng.random() < 0.9 else 'intstatus') if rng.random() < p_ok
-            else rng.choice(OUTCOMES[1:9]) for _ in range(n)]
+            else rng.choice(OUTCOMES[1:9]) + ':%d' % rng.randrange(63) for _ in range(n)]
 
 
 def gen_case(rng, focus, big=False):
@@ -111,6 +111,10 @@ CORPUS = [
      'runs': [{'outcomes': ['badupdate', 'badstatus', 'done'], 'strategy': 'uniform', 'seed': 4}]},
     {'n': 2, 'hard': [[], []], 'soft': [[], [0]], 'workers': 2,
      'runs': [{'outcomes': ['waitstatus', 'done'], 'strategy': 'uniform', 'seed': 5}]},
+    {'n': 2, 'hard': [[], [0]], 'soft': [[], []], 'workers': 1,
+     'runs': [{'outcomes': ['badupdate:1', 'done'], 'strategy': 'uniform', 'seed': 21}]},
+    {'n': 3, 'hard': [[], [0], [1]], 'soft': [[], [], []], 'workers': 2,
+     'runs': [{'outcomes': ['badupdate:4', 'badstatus:1', 'notpair:6'], 'strategy': 'uniform', 'seed': 22}]},
     # C03: cyclic graph; stale statuses in the initial environment
     {'n': 2, 'hard': [[1], [0]], 'soft': [[], []], 'workers': 2,
      'runs': [{'outcomes': ['done', 'done'], 'strategy': 'uniform', 'seed': 6}]},
@@ -328,7 +332,7 @@ def coq_case(case, run):
     full = full_deps(case)
     oc = []
     for kind in run['outcomes']:
-        u, k = OUTCOME_MODEL.get(kind, (False, False))
+        u, k = OUTCOME_MODEL.get(kind.partition(':')[0], (False, False))
         oc.append(f'(mkO {common.cb(u)} {common.cb(k)})')
     order = 'None' if run['cyclic'] or run['order'] is None \
         else '(Some ' + clist([cn(x) for x in run['order']]) + ')'
@@ -386,7 +390,7 @@ def run(ctx, focus):
             if any(e is not None for e in run_['env0']):
                 ctx.count('runs_with_initial_env')
             for kind in run_['outcomes']:
-                ctx.count('outcome_' + kind)
+                ctx.count('outcome_' + kind.partition(':')[0])
             nt = nt or nontrivial(case, run_)
             coq_items.append(coq_case(case, run_))
             owners.append((case, run_))
